@@ -7,3 +7,27 @@ package transaction
 //@   trusted
 //@   modifies nothing
 //@   ensures result != nil
+
+// ---- signed transactions (C09): opened only under the transaction signature context ----
+
+//@ import "github.com/oasisprotocol/oasis-core/go/common/crypto/signature"
+//@ ghost func TxSigOK(s *SignedTransaction) bool { return signature.SigOK(s.Signed.Signature.PublicKey, SignatureContext, s.Signed.Blob, s.Signed.Signature.Signature) }
+
+//@ func SignedTransaction.Open
+//@   props C09
+//@   requires s != nil
+//@   modifies tx
+//@   trustframe
+//@   ensures err == nil ==> old(TxSigOK(s))
+//@   note the envelope is opened under transaction.SignatureContext (chain-separated), never under another context
+
+//@ func Transaction.SanityCheck
+//@   props C09
+//@   requires t != nil
+//@   modifies nothing
+//@   ensures err == nil ==> len(t.Method) > 0
+
+//@ func MethodName.SanityCheck
+//@   props C09
+//@   modifies nothing
+//@   ensures err == nil ==> len(m) > 0
